@@ -1539,7 +1539,10 @@ def optimize_blockwise_fusion_array(expr):
                 seen_in_group.add(node._name)
 
                 group.append(node)
-                for dep_name in dependencies.get(node._name, set()):
+                # sorted: set order follows str hashing, which would make the
+                # fused group's member order (and so its name and graph keys)
+                # depend on PYTHONHASHSEED
+                for dep_name in sorted(dependencies.get(node._name, ())):
                     dep = expr_mapping[dep_name]
 
                     stack_names = {s._name for s in stack}
